@@ -356,3 +356,11 @@ SUBS = [
     Sub("result_matrix", sub_result_matrix, st_result, 800, 40000, nontrivial=lambda c: any(c["opts"][k] for k in ("align", "correct_scale", "align_origin"))),
     Sub("bulk", sub_bulk, st_bulk, 16, 400, shards_quick=4),
 ]
+
+
+# ---- alignment requested through evo_traj (--align / --correct_scale / --align_origin / --n_to_align with --ref) ---------
+from vf.checks import c15 as _c15
+SUBS.append(Sub("cli_align", _c15.sub_traj, _c15.make_st_case(
+    has_ref=st.just(True), align_mode=st.sampled_from(["align", "origin", "none"]), tf=st.none(), project=st.none(), downsample=st.none(),
+    mf=st.none(), merge=st.just(False)), 300, 8000,
+    nontrivial=lambda c: any(c["opts"].get(k) for k in ("align", "correct_scale", "align_origin")), shards_quick=4))
